@@ -129,8 +129,12 @@ def _stage_chain(fn: ast.FunctionDef, mask_name: str, input_name: str) -> list[s
         st = _STAGE[fname]
         chain.append(st)
         if fname == "where":
-            _where_kernel(node, {mask_name}, _is_name(input_name) if True else None)
-            node = node.args[2]
+            if len(node.args) != 3:
+                raise Untranslatable("torch.where without 3 positional arguments")
+            data = [a for a in node.args[1:] if _const_branch(a) is None]
+            if len(data) != 1:
+                raise Untranslatable("torch.where without exactly one data branch")
+            node = data[0]
         else:
             if st == "mask":
                 if len(node.args) < 2 or ast.unparse(node.args[1]) != mask_name:
@@ -288,11 +292,15 @@ def _c03_extra():
         if len(ws) != 1:
             raise Untranslatable(f"{len(ws)} torch.where calls in ConjGrad._A_star_op")
         body, _ = _where_kernel(ws[0], {"sampling_mask"}, _is_name("kspace"))
-        stages = _stage_chain(fn, "sampling_mask", "kspace")
-        return (_kernel_def("a_star_kernel", body, f"`{CG}`:`ConjGrad._A_star_op`")
-                + _stages_def("a_star_stages", stages, f"`{CG}`:`ConjGrad._A_star_op`"))
+        return _kernel_def("a_star_kernel", body, f"`{CG}`:`ConjGrad._A_star_op`")
 
-    attempt("a_star", b_astar, fb_kernel("a_star_kernel", "whereZero") + "def a_star_stages : List Stage := bwdStages\n")
+    def b_astar_stages():
+        fn = find_function(parse_file(REPO / CG), "ConjGrad._A_star_op")
+        stages = _stage_chain(fn, "sampling_mask", "kspace")
+        return _stages_def("a_star_stages", stages, f"`{CG}`:`ConjGrad._A_star_op`")
+
+    attempt("a_star_kernel", b_astar, fb_kernel("a_star_kernel", "whereZero"))
+    attempt("a_star_stages", b_astar_stages, "def a_star_stages : List Stage := bwdStages\n")
 
     # engine operators -------------------------------------------------------------------------
     def b_fwd():
